@@ -31,6 +31,8 @@ H = vlib.HARNESS
 HARNESSES = {
     "react": dict(pkg="flow/agent/react", test="^TestVerifAgentConc$", marker="VERIF-AGENTCONC cases=",
                   overlay={"flow/agent/react/zz_verif_agentconc_test.go": os.path.join(H, "flow", "agent", "react", "zz_verif_agentconc_test.go")}),
+    "tools": dict(pkg="compose", test="^TestVerifToolsConc$", marker="VERIF-TOOLSCONC cases=",
+                  overlay={"compose/zz_verif_toolsconc_test.go": os.path.join(H, "compose", "zz_verif_toolsconc_test.go")}),
     "host": dict(pkg="flow/agent/multiagent/host", test="^TestVerifHostConc$", marker="VERIF-HOSTCONC cases=",
                  overlay={"flow/agent/multiagent/host/zz_verif_hostconc_test.go": os.path.join(H, "flow", "agent", "multiagent", "host", "zz_verif_hostconc_test.go")}),
 }
@@ -120,6 +122,20 @@ def replay(name, *, repo, race, callers, rounds, timeout=600):
     code, output, wall = vlib.go_test(h["pkg"], h["overlay"], h["test"], race=race, timeout=timeout, repo=repo, args=["-test.v"],
                                       env={"VERIF_OUT": op, "VERIF_CALLERS": str(callers), "VERIF_ROUNDS": str(rounds)})
     races = parse_race_reports(output, repo, name) if race else []
+    if h["marker"] not in output and os.path.exists(op) and re.search(r"^(panic:|fatal error:)", output, re.M):
+        # the test process died.  If the dying goroutine's stack has a frame in eino code outside _test.go files, this is an
+        # observation of the framework (no run may kill the process): the cases written so far are kept, the death is reported
+        frame = None
+        ol = output.splitlines()
+        for i in range(len(ol) - 1):
+            if ol[i].startswith("github.com/cloudwego/eino/") and not ol[i + 1].strip().split(":")[0].endswith("_test.go"):
+                frame = ol[i].split("(")[0][len("github.com/cloudwego/eino/"):]
+                break
+        if frame:
+            lines = vlib.read_lines(op)
+            while lines and not lines[-1].startswith('{"ev":"end"'):
+                lines.pop()
+            return lines, races, wall, [("%s/process" % name, "process-died-in-" + frame)]
     if h["marker"] not in output or not os.path.exists(op):
         raise Inconclusive("agent concurrency harness %s (%s) did not complete\n%s" % (name, "race" if race else "plain", output[-4000:]))
     if code != 0 and not (race and "race detected during execution of test" in output):
@@ -127,7 +143,7 @@ def replay(name, *, repo, race, callers, rounds, timeout=600):
     if race and code != 0 and not races:
         # the detector fired, but only in harness code: a problem of the harness, never a violation
         raise Inconclusive("race detector fired outside eino code in harness %s\n%s" % (name, output[:4000]))
-    return vlib.read_lines(op), races, wall
+    return vlib.read_lines(op), races, wall, []
 
 
 def validate(lines):
@@ -152,9 +168,10 @@ def agent_isolation(tier, repo=None):
         all_lines, bad, races, samples = [], [], [], []
         vstates = vtrans = ncases = 0
         for race in (False, True):
-            for name in ("react", "host"):
-                lines, rr, wall = replay(name, repo=repo, race=race, callers=callers, rounds=rounds)
-                b, s, tr = validate(lines)
+            for name in ("react", "host", "tools"):
+                lines, rr, wall, died = replay(name, repo=repo, race=race, callers=callers, rounds=rounds)
+                b, s, tr = validate(lines) if lines else ([], 0, 0)
+                b = b + died
                 n = sum(1 for ln in lines if ln.startswith('{"ev":"case"'))
                 log("  replay %-5s %-5s %4d cases, %5d lines, %2d rejected, %d race reports in eino code, %.0fs" % (
                     name, "race" if race else "plain", n, len(lines), len(b), len(rr), wall))
